@@ -293,8 +293,10 @@ func (s *tcpSys) Do(a map[string]any, wait func()) ([]Obs, error) {
 	s.step++
 	time.Sleep(time.Microsecond)
 	wait()
-	if err := s.ensureNonce(wait); err != nil {
-		return nil, err
+	if a["a"] != "ProbeAfterClose" && a["a"] != "ServerClose" {
+		if err := s.ensureNonce(wait); err != nil {
+			return nil, err
+		}
 	}
 	c, _ := a["c"].(string)
 	u, _ := a["u"].(string)
@@ -386,6 +388,11 @@ func (s *tcpSys) Do(a map[string]any, wait func()) ([]Obs, error) {
 		} else {
 			_ = s.dataEnd[id].Close()
 		}
+	case "ServerClose":
+		_ = s.srv.Close()
+	case "ProbeAfterClose":
+		// a control connection accepted before Server.Close tries to allocate on the closed server
+		_, _ = s.ctrl[c].Write(s.authed(u, stun.MethodAllocate, proto.RequestedTransport{Protocol: proto.ProtoTCP}))
 	case "ControlClose":
 		_ = s.ctrl[c].Close()
 		wait()
@@ -699,6 +706,11 @@ func (s *tcpSys) Check(e Edge, obs []Obs) []Mismatch {
 		case "resp":
 			if o["cls"] == "err" && len(exp) == 0 {
 				continue // an error where the spec expects silence-or-error
+			}
+			if name == "ProbeAfterClose" {
+				ms = append(ms, Mismatch{"afterclose", fmt.Sprintf("%v answered with success on a control connection of the closed server", o["m"])})
+
+				continue
 			}
 			ms = append(ms, Mismatch{"resp+", fmt.Sprintf("unexpected %v %v response to %v", o["m"], o["cls"], o["to"])})
 		default:
